@@ -15,6 +15,7 @@ import (
 	"fmt"
 	"io/ioutil"
 	"os"
+	"os/exec"
 	"path/filepath"
 	"reflect"
 	"runtime"
@@ -329,9 +330,18 @@ func projObj(p reflect.Value) (m MV, pan string) {
 
 // what p2p Msg.Decode and the database readers do: a Stream limited to the
 // input, one value decoded, the rest left unread
+func isTooLarge(err string) bool {
+	return strings.Contains(err, "value size exceeds available input length")
+}
+
 func goDecodeStream(e *entry, b []byte) (o obs, unread int) {
+	if lastInputFile != "" {
+		ioutil.WriteFile(lastInputFile, []byte(fmt.Sprintf("{\"what\":\"fatal-runtime-error-while-decoding\",\"type\":%q,\"mode\":\"stream\",\"bytes\":%q}\n", e.name, hex.EncodeToString(b))), 0644)
+	}
 	o.obj = e.mk()
 	rd := bytes.NewReader(b)
+	a0 := allocated()
+	defer func() { o.Alloc = allocated() - a0 }()
 	func() {
 		defer func() {
 			if x := recover(); x != nil {
@@ -358,9 +368,15 @@ func (g *genState) streamCase(e *entry, b []byte, mut string) {
 		g.hit(hit{What: "panic:decode-stream:" + e.name, Type: e.name, Bytes: c.Bytes, Note: o.Panic})
 		return
 	}
+	if o.Alloc > allocBound(len(b)) {
+		g.hit(hit{What: "allocation-far-beyond-input:" + e.name, Type: e.name, Bytes: c.Bytes, Mode: "stream", Note: fmt.Sprintf("%d bytes allocated for %d bytes of input", o.Alloc, len(b))})
+	}
 	if !o.Accepted {
 		g.res.Count("stream_reject")
-		c.coq = fmt.Sprintf("PStream %d %s None", e.id, byteList(b))
+		if isTooLarge(o.Err) {
+			g.res.Count("stream_reject:value_size_exceeds_available_input_length")
+		}
+		c.coq = fmt.Sprintf("PRej %d true %s %s", e.id, byteList(b), vf.Bool(isTooLarge(o.Err)))
 		g.add(c)
 		return
 	}
@@ -680,7 +696,12 @@ func (g *genState) bytesCaseVia(e *entry, v *viaFn, b []byte, mut string) {
 	}
 	if !o.Accepted {
 		g.res.Count("reject:" + errClass(o.Err))
-		c.coq = fmt.Sprintf("PDec %d %s None", e.id, byteList(b))
+		if v == nil {
+			// the verdict class is compared too: "value size exceeds available input length"
+			c.coq = fmt.Sprintf("PRej %d false %s %s", e.id, byteList(b), vf.Bool(isTooLarge(o.Err)))
+		} else {
+			c.coq = fmt.Sprintf("PDec %d %s None", e.id, byteList(b))
+		}
 		g.add(c)
 		return
 	}
@@ -897,6 +918,7 @@ func gen(seed uint64, n int, outDir, corpusDir string) {
 		}
 	}
 	handlerCampaign(g, n/4+50)
+	g.sizeCampaign(seed, n/5+80, outDir)
 
 	var sb strings.Builder
 	sb.WriteString("From Coq Require Import Uint63.\nFrom VF.C14 Require Import Pack.\nFrom VF.gen Require Import C14Schemas.\nLocal Open Scope uint63_scope.\nDefinition cases : list pcase := [\n")
@@ -924,7 +946,30 @@ func gen(seed uint64, n int, outDir, corpusDir string) {
 
 // ---- replay -----------------------------------------------------------------------------------------
 
+// replay runs in a child under the same address-space limit as the size campaign:
+// an input that kills the decoder must not kill the report
 func replay(file string) {
+	if os.Getenv("C14_CHILD") == "" {
+		self, err := os.Executable()
+		if err != nil {
+			self = os.Args[0]
+		}
+		cmd := exec.Command("sh", "-c", fmt.Sprintf("ulimit -v %d; exec \"$0\" replay -file \"$1\"", childLimitKiB), self, file)
+		cmd.Env = append(os.Environ(), "C14_CHILD=1")
+		out, err := cmd.CombinedOutput()
+		if len(out) > 4000 {
+			out = out[:4000]
+		}
+		fmt.Print(string(out))
+		if err == nil {
+			return
+		}
+		if ee, ok := err.(*exec.ExitError); ok && ee.ExitCode() == 1 {
+			os.Exit(1)
+		}
+		fmt.Println("\nORACLE VIOLATION: the decoder died with a fatal runtime error on this input (child under address-space limit):", err)
+		os.Exit(1)
+	}
 	raw, err := ioutil.ReadFile(file)
 	if err != nil {
 		fmt.Println(err)
@@ -1004,6 +1049,8 @@ func main() {
 		schemasCmd(*out)
 	case "callsites":
 		callSitesCmd(*out)
+	case "sizeattack":
+		sizeAttackChild(*seed, *n, *out)
 	case "replay":
 		replay(*file)
 	default:
